@@ -198,6 +198,10 @@ func checkC01(c *core.Ctx) {
 		judgePitches(c, "keyplace", i, p, f, writeOpts{})
 	})
 
+	c.Stream("collide", c.N(150, 3000), func(i int, r *rand.Rand) {
+		judgePitches(c, "collide", i, collisionPiece(r), model.Flags{}, randWriteOpts(r))
+	})
+
 	// user dictionaries: "every chord symbol of the dictionary", "inherited ones included" holds for the
 	// dictionary in force, i.e. with --chord/--attr files loaded: inheritance forests split over several
 	// files in any order, symbols taken over from built-ins, used by name and by display
